@@ -17,7 +17,12 @@ def dump_expr(e):
     if isinstance(e, construct.EnumIntegerString): return {"enum": str(e), "int": int(e.intvalue)}
     if callable(e) and hasattr(e, "__code__"):
         c = e.__code__
-        return {"lambda": {"file": c.co_filename, "line": c.co_firstlineno, "args": list(c.co_varnames[:c.co_argcount])}}
+        free = {}
+        for nm, cell in zip(c.co_freevars, e.__closure__ or ()):       # closure cells of a function made by a factory: simple constants are dumped by value
+            try: v = cell.cell_contents
+            except ValueError: continue
+            free[nm] = v if (v is None or isinstance(v, (bool, int, str))) else {"obj": repr(v)[:80]}
+        return {"lambda": {"file": c.co_filename, "line": c.co_firstlineno, "args": list(c.co_varnames[:c.co_argcount]), "freevars": free}}
     if isinstance(e, bool) or e is None or isinstance(e, (int, str)): return e
     if isinstance(e, bytes): return {"bytes": e.hex()}
     if isinstance(e, construct.Construct): return dump(e)
